@@ -579,7 +579,7 @@ def check_shutdown(rec: Rec, case: dict) -> None:
 
 @st.composite
 def shutdown_cases(draw):
-    T = draw(st.sampled_from([1.0, 2.0, 8.0]))
+    T = draw(st.sampled_from([1.0, 2.0, 8.0, 0.0]))  # 0: no allowance at all, handlers are cancelled at once
     n = draw(st.integers(1, 4))
     conns = []
     for _ in range(n):
